@@ -207,6 +207,10 @@ func (packet *Packet) SetParameters(values []base.BoundValue) (err error) {
 			if err != nil {
 				return err
 			}
+			if data == nil {
+				// NULL parameter that keeps its declared type: there is no value to look at
+				break
+			}
 			intValue, err := strconv.ParseInt(string(data), 10, 64)
 			if err != nil {
 				return err
@@ -223,6 +227,10 @@ func (packet *Packet) SetParameters(values []base.BoundValue) (err error) {
 	}
 
 	for i := 0; i < len(values); i++ {
+		// NULL parameters are flagged in the NULL-bitmap (copied above) and carry no value bytes
+		if data, err := values[i].GetData(nil); err == nil && data == nil {
+			continue
+		}
 		encoded, err := values[i].Encode()
 		if err != nil {
 			return err
